@@ -122,6 +122,11 @@ def conc_val(model, v):
     return v
 
 
+def native_panic(j):
+    """native panic outcome -> PanicExc whose `fn` is the source file of the panic site"""
+    return ('panic', PanicExc(j.get('file') or 'native', 'panic', j.get('msg', '')))
+
+
 def ints(bs):
     """list of z3 constant bytes -> python ints"""
     return [b if isinstance(b, int) else conc(b) for b in bs]
@@ -310,8 +315,9 @@ class Check:
                            'mir_steps': st.get('steps', 0), 'wall_s': round(wall, 1), 'bounds': bounds})
 
     def key_known(self, key):
+        import fnmatch
         for k in self.known:
-            if k.get('property') == self.pid and k.get('key') == key:
+            if k.get('property') == self.pid and fnmatch.fnmatchcase(key, k.get('key', '')):
                 return k
         return None
 
@@ -358,8 +364,13 @@ class Check:
             out['coverage']['states'] = max(1, out['coverage']['states'])
             out['coverage']['transitions'] = max(1, out['coverage']['transitions'])
             json.dump(out, open(os.path.join(VERIF, 'evidence', self.pid + '.json'), 'w'), indent=1, default=str)
+        by_entry = {}
         for key, (what, path) in sorted(self.known_hits.items()):
-            print(f'KNOWN-FINDING: property={self.pid} {what} [key={key}] replay={path}')
+            k = self.key_known(key)
+            by_entry.setdefault(k.get('key'), []).append((key, what, path))
+        for pat, hits in sorted(by_entry.items()):
+            key, what, path = hits[0]
+            print(f'KNOWN-FINDING: property={self.pid} [{pat}] {what[:400]} (+{len(hits) - 1} more keys: {", ".join(h[0] for h in hits[1:])[:200]}) replay={path}')
         for key, what, path in self.violations:
             print(f'VIOLATION property={self.pid} replay={path}')
             print(f'  what: {what} [key={key}]')
